@@ -115,6 +115,7 @@ fn di_case(a: i128, p: u8, t: usize, v: i128, all_forms: bool, l: &mut Local) {
 pub fn replay(w: &Value) -> Vec<(String, String)> {
     let run = Run::new("C10", Tier::Quick);
     run.seq(|l| match w["k"].as_str().unwrap_or("") {
+        "seq" => crate::seq::replay_case(w, l),
         "dd" => dd_case(w["a"].as_str().unwrap().parse().unwrap(), w["p"].as_u64().unwrap() as u8,
             w["b"].as_str().unwrap().parse().unwrap(), w["q"].as_u64().unwrap() as u8, true, l),
         "di" => di_case(w["a"].as_str().unwrap().parse().unwrap(), w["p"].as_u64().unwrap() as u8,
@@ -203,6 +204,15 @@ pub fn run(tier: Tier) -> i32 {
         for a in xs { di_case(a, p, t, v, true, l); }
     });
     run.stage("integer operands", json!({"types":9,"operand_tuples":items.len()}));
+
+    // sequence exploration: chained operations from a seed set, results fed back as operands
+    {
+        let (d, cap) = if tier.thorough() { (3, 12000) } else { (2, 3000) };
+        let modes: Vec<RoundingMode> = vec![RoundingMode::RoundHalfEven];
+        let (st, tr) = crate::seq::explore(&run, &[crate::seq::SOp::Rem], d, cap, &modes);
+        run.stage("sequence exploration (breadth-first over reachable Decimals)", json!({"depth": d, "states": st, "transitions": tr, "modes": modes.len()}));
+        run.set_extra("sequence_exploration", json!({"depth": d, "states": st, "transitions": tr, "seeds": crate::seq::seeds().len(), "state_cap_per_level": cap}));
+    }
 
     let mut required: Vec<Vec<u64>> = Vec::new();
     for path in [RemPath::Equal, RemPath::DivisorScaled, RemPath::DivisorOverflow, RemPath::DividendScaled, RemPath::Stepwise] {
